@@ -899,6 +899,22 @@ class _Idioms(ast.NodeTransformer):
 
     def visit_Call(self, n):
         self.generic_visit(n)
+        # f(**{"k": v, ...}) with constant identifier keys  ==  f(k=v, ...)   (same keywords, same evaluation order)
+        kws = []
+        changed = False
+        for k in n.keywords:
+            if k.arg is None and isinstance(k.value, ast.Dict) and k.value.keys and all(
+                    isinstance(x, ast.Constant) and isinstance(x.value, str) and x.value.isidentifier()
+                    for x in k.value.keys):
+                for kk, vv in zip(k.value.keys, k.value.values):
+                    kws.append(ast.keyword(arg=kk.value, value=vv))
+                changed = True
+            else:
+                kws.append(k)
+        if changed and len({k.arg for k in kws if k.arg}) == len([k for k in kws if k.arg]):
+            n.keywords = kws
+            self.applied.append("dict-splat")
+            ast.fix_missing_locations(n)
         try:
             f = ast.unparse(n.func)
         except Exception:
@@ -912,6 +928,14 @@ class _Idioms(ast.NodeTransformer):
 
     def visit_Subscript(self, n):
         self.generic_visit(n)
+        # {"a": X, "b": Y}["a"]  ->  X   (value identity; the other entries must be free of calls)
+        if isinstance(n.ctx, ast.Load) and isinstance(n.value, ast.Dict) and isinstance(n.slice, ast.Constant) \
+                and n.value.keys and all(isinstance(k, ast.Constant) for k in n.value.keys):
+            hits = [(k, v) for k, v in zip(n.value.keys, n.value.values) if k.value == n.slice.value]
+            others = [v for k, v in zip(n.value.keys, n.value.values) if k.value != n.slice.value]
+            if len(hits) == 1 and not any(has_call(o) for o in others):
+                self.applied.append("dict-display-subscript")
+                return ast.copy_location(hits[0][1], n)
         v = n.value
         if isinstance(n.ctx, ast.Load) and isinstance(v, ast.Call) and len(v.args) == 1 and not v.keywords:
             try:
